@@ -12,10 +12,13 @@ def run(ck):
                       "operations incl. refusals, snapshot/restore and JSON round trips); every transition is replayed on "
                       "queueing.Buffer[int] (result + projected contents compared after each step), then seeded random "
                       "walks. Non-trivial = distinct history containing a refusal, an empty-pop/peek, or a round trip.")
-    ck.assumptions += ["element type int; zero value 0 is not in Vals", "hooks on the buffer are not attached"]
+    ck.assumptions += ["element types int and a struct with omitempty fields; the zero value is not in Vals", "hooks on the buffer are not attached"]
 
     def nontrivial(h):
         return any(s["a"]["res"] == "refused" or s["a"]["op"] in ("snaprestore", "jsonrt", "restore", "updatefront") or
                    (s["a"]["op"] in ("pop", "peek") and s["a"]["res"] == 0) for s in h["steps"])
     walks, wl = (100, 60) if ck.tier == "quick" else (2000, 200)
     objcheck.replay_graph(ck, g, "container", "buffer", walks=walks, walk_len=wl, nontrivial=nontrivial)
+    # the same graph on a struct element type whose JSON omits zero fields (stale fields of a
+    # reused backing array would show), incl. unmarshalling into a live non-empty buffer
+    objcheck.replay_graph(ck, g, "container", "buffer_struct", walks=walks, walk_len=wl, nontrivial=nontrivial)
